@@ -16,6 +16,8 @@ type Member struct {
 	leading  map[int]uint64
 	commit   map[int]uint64
 	prevConf map[int]*raft.Configuration // configuration each node had at the previous quiescent point
+	confLog  map[int]map[uint64]*raft.Configuration // mirror of the configuration entries of every log
+	pending  *common.Violation
 	doneOps  map[int]bool
 	Changes  int
 }
@@ -25,11 +27,72 @@ func (m *Member) Attach(c *sim.Cluster) {
 	m.commit = map[int]uint64{}
 	m.doneOps = map[int]bool{}
 	m.prevConf = map[int]*raft.Configuration{}
+	m.confLog = map[int]map[uint64]*raft.Configuration{}
+	m.pending = nil
+	// Membership grows and shrinks by one server at a time: every configuration
+	// entry appended to a log may differ from the configuration entry preceding
+	// it in that log by at most one server (added, removed, or promoted).
+	c.LogObservers = append(c.LogObservers, func(node int, op string, index uint64, entries []*raft.LogEntry) {
+		if m.confLog[node] == nil {
+			m.confLog[node] = map[uint64]*raft.Configuration{}
+		}
+		cl := m.confLog[node]
+		switch op {
+		case "truncate":
+			for idx := range cl {
+				if idx >= index {
+					delete(cl, idx)
+				}
+			}
+		case "append":
+			for _, e := range entries {
+				if e.EntryType != raft.ConfigurationEntry {
+					delete(cl, e.Index)
+					continue
+				}
+				cf, err := raft.VerifDecodeConfiguration(e.Data)
+				if err != nil {
+					continue
+				}
+				var prev *raft.Configuration
+				var at uint64
+				for idx, p := range cl {
+					if idx < e.Index && idx >= at {
+						at, prev = idx, p
+					}
+				}
+				cl[e.Index] = &cf
+				if prev == nil || m.pending != nil {
+					continue
+				}
+				diff := 0
+				for id := range cf.Members {
+					if _, ok := prev.Members[id]; !ok {
+						diff++
+					} else if cf.IsVoter[id] != prev.IsVoter[id] {
+						diff++
+					}
+				}
+				for id := range prev.Members {
+					if _, ok := cf.Members[id]; !ok {
+						diff++
+					}
+				}
+				if diff > 1 {
+					m.pending = viol("C09", "configuration-changes-by-more-than-one-server", "n%d appended %s after %s: %d servers differ", node, sim.CanonConfiguration(&cf), sim.CanonConfiguration(prev), diff)
+				}
+			}
+		}
+	})
 }
 
 func (m *Member) Mem(b *bytes.Buffer) {}
 
 func (m *Member) Step(c *sim.Cluster) *common.Violation {
+	if p := m.pending; p != nil {
+		m.pending = nil
+		return p
+	}
 	for i, n := range c.Nodes {
 		v, ok := c.View(i)
 		if !ok || v.MuHeld {
